@@ -198,8 +198,39 @@ def c06_job(chk, rng, i):
                     "trail": ("cat", [("plus", ("chr", rng.choice(b"cd01"))),
                                       ("chr", rng.choice(b"abcd"))]) if rng.chance(70)
                     else g.series(1), "act": []})
+    # fixed-length heads and trails built from exact repeats of multi-byte singletons
+    # (groups, strings, definitions): flex computes the split position from their lengths
+    if i % 3 == 1 or i % 4 == 2:
+        def multi():
+            w = bytes(rng.choice(b"abcd01") for _ in range(rng.rint(2, 3)))
+            form = rng.below(3)
+            if form == 0:
+                return ("grp", ("cat", [("chr", c) for c in w]), None, None)
+            if form == 1:
+                return ("str", w)
+            return ("grp", ("cat", [("chr", w[0]), ("ccl", False, [("c", c) for c in sorted(set(w))])]),
+                    None, None)
+
+        def fixed():
+            parts = []
+            for _ in range(rng.rint(1, 2)):
+                n = rng.rint(2, 3)
+                parts.append(("rep", multi(), n, n, "exact") if rng.chance(70) else multi())
+            return parts[0] if len(parts) == 1 else ("cat", parts)
+        for k in range(rng.rint(1, 3)):
+            var = ("plus", ("chr", rng.choice(b"abx")))
+            shape = rng.below(3)
+            head, trail = [(fixed(), fixed()), (fixed(), var), (var, fixed())][shape]
+            case["rules"].insert(rng.below(len(case["rules"]) + 1), {
+                "scs": None, "bol": False, "pat": head, "trail": trail, "act": [], "_fixed": True})
     f = {"ret": 25, "setbol": 12 if i % 3 == 0 else 0}
+    if i % 4 == 2:
+        f["more"] = 35      # a yymore() prefix must not shift the head/trail split
     scripts.decorate(case, rng, f)
+    if i % 4 == 2:
+        # a rule that always calls yymore(), so that the next token starts with a prefix
+        case["rules"].insert(0, {"scs": None, "bol": False, "pat": ("chr", 60), "trail": None,
+                                 "act": [("more",)]})
     scripts.driver_walk_scs(case, rng)
     ctx = gen.ctx_of(case)
     inputs = []
@@ -208,6 +239,15 @@ def c06_job(chk, rng, i):
         if rng.chance(40) and s.endswith(b"\n"):
             s = s[:-1]      # '$' at end of input without a newline
         inputs.append({"sources": [s], "sched": rng.choice([[0], [0], [1], [2, 1]])})
+    if i % 4 == 2:
+        for r in case["rules"]:
+            if r.get("_fixed"):
+                h, t = g.sample(r["pat"], ctx), g.sample(r["trail"], ctx)
+                if h and t:
+                    s = b"<" + h + t + b" " + h + t + b"<<" + h + t + b"\n"
+                    inputs.append({"sources": [s], "sched": rng.choice([[0], [1]])})
+    for r in case["rules"]:
+        r.pop("_fixed", None)
     tb = rotate(i // 3, ["", "-Cem", "-Ce", "-C", "-Cm", "-Cfe", "-CFe", "-Ca"])
     fl = rotate(i, FLAV3)
     cfg = {"flavour": fl, "flexargs": lib.tables_args(tb, 8)}
